@@ -8,11 +8,12 @@ spec/Codec.tla (TLC): generated statements / declarations of every node kind (op
    with the semantic node TLC expects; mutated bytes decoded under a progress budget (also plugin.ReadLinterRequest)
  -> vhc19 bytes: every byte truncation, seeded bit flips / byte substitutions / splices (totality only).
 """
-import json, os
+import json, os, sys
 import vlib
 from vlib import MachineryFault
 
 LEVEL = "model_checking"
+sys.setrecursionlimit(200000)      # behaviours carry trees nested 1000 deep (json)
 
 
 def shard_file(path, n, workdir, name):
